@@ -312,11 +312,12 @@ Definition visit_implicit (e : penv) (value : text) : node :=
     | None => name_cond
     end
   else
+    let not_urn :=
+      if implicit_phone value then Cond PURN k_tel OpContains (clean_phone value) else name_cond in
     match pe_urn e value with
-    | Some (scheme, path) => Cond PURN scheme OpEqual path
-    | None =>
-        if implicit_phone value then Cond PURN k_tel OpContains (clean_phone value)
-        else name_cond
+    | Some (scheme, path) =>
+        if pe_valid_scheme e scheme then Cond PURN scheme OpEqual path else not_urn
+    | None => not_urn
     end.
 
 Fixpoint visit (e : penv) (a : ast) : vres :=
